@@ -87,6 +87,23 @@ def invariant_definitions(ctx) -> tuple[FuncInfo, list[tuple[str, object]], ast.
     lst = target.node.args[1]
     if isinstance(lst, ast.Name):
         lst = single_def(fi.node, lst.id)
+    if lst is not None and not isinstance(lst, (ast.List, ast.Tuple)):
+        # a table held elsewhere (module constant, built by a call): evaluate it
+        from ..model import ConstInst
+        val = try_const(ctx, fi, lst, default=_NO)
+        if val is not _NO and isinstance(val, (list, tuple)) and val:
+            defs = []
+            for el in val:
+                if isinstance(el, ConstInst):
+                    vals = list(el.fields.values())
+                elif isinstance(el, (tuple, list)):
+                    vals = list(el)
+                else:
+                    raise AnalysisError(f"invariant-code definition {el!r} not understood")
+                if not vals or not isinstance(vals[0], str):
+                    raise AnalysisError(f"invariant-code definition {el!r} has no constant key")
+                defs.append((vals[0], vals[1] if len(vals) > 1 else None))
+            return fi, defs, lst
     if not isinstance(lst, (ast.List, ast.Tuple)):
         raise AnalysisError("invariant-code definitions are not a literal list")
     defs = []
@@ -199,51 +216,49 @@ def r_keys(ctx) -> RuleResult:
 
 
 def _check_invariant_helper(ctx, res: RuleResult):
+    """what flows into the invariant code of an atom: followed with the heap interpreter from the call in
+    graph_from_molecule (atom records with one labelled value per attribute, the definitions as written at the call)"""
+    from ..heap import HeapInterp, Obj, E, taint
     repo = ctx.repo
     inv_key = repo.const("tucan.graph_attributes", "INVARIANT_CODE")
-    fi = None
-    for f in closure(ctx, "read_text"):
-        if "invariant" in f.name and f.name != "graph_from_molecule":
-            fi = f
-    if fi is None:
+    gfm = repo.func("tucan.graph_utils.graph_from_molecule")
+    target = None
+    for cs in sites(ctx, gfm):
+        if cs.kind == "tucan" and "invariant" in cs.target.name:
+            target = cs
+    if target is None or len(target.node.args) < 2:
         raise AnalysisError("invariant-code helper vanished")
-    fn = fi.node
-    params = params_of(fn)
-    if len(params) < 2:
-        raise AnalysisError("invariant-code helper signature changed")
-    atoms, defsp = params[0], params[1]
-    # store site:  <attrs>.update({INVARIANT_CODE: X}) / <attrs>[INVARIANT_CODE] = X
-    stores = []
-    for n in own_walk(fn):
-        if isinstance(n, ast.Call) and isinstance(n.func, ast.Attribute) and n.func.attr == "update" and n.args and isinstance(n.args[0], ast.Dict):
-            for k, v in zip(n.args[0].keys, n.args[0].values):
-                if k is not None and try_const(ctx, fi, k) == inv_key:
-                    stores.append((n, v))
-        if isinstance(n, ast.Assign) and isinstance(n.targets[0], ast.Subscript) and try_const(ctx, fi, n.targets[0].slice) == inv_key:
-            stores.append((n, n.value))
-    if len(stores) != 1:
-        raise AnalysisError(f"invariant-code helper: expected one store under {inv_key!r}, found {len(stores)}")
-    st, val = stores[0]
-    if isinstance(val, ast.Name):
-        val = single_def(fn, val.id) or val
-    if isinstance(val, ast.Call) and isinstance(val.func, ast.Name) and val.func.id == "tuple" and val.args:
-        val = val.args[0]
-    ok = False
-    why = "value is not a comprehension over the definitions"
-    if isinstance(val, (ast.GeneratorExp, ast.ListComp)) and len(val.generators) == 1 and not val.generators[0].ifs \
-            and norm(val.generators[0].iter) == defsp and isinstance(val.generators[0].target, ast.Name):
-        icd = val.generators[0].target.id
-        elt = val.elt
-        # attrs[icd.key] if default is None else attrs.get(icd.key, default)
-        reads = [n for n in ast.walk(elt) if (isinstance(n, ast.Subscript) and norm(n.slice) == f"{icd}.key") or
-                 (isinstance(n, ast.Call) and isinstance(n.func, ast.Attribute) and n.func.attr == "get" and n.args and norm(n.args[0]) == f"{icd}.key")]
-        others = [n for n in ast.walk(elt) if isinstance(n, ast.Subscript) and norm(n.slice) != f"{icd}.key"]
-        if reads and not others:
-            ok = True
-            why = f"tuple of attrs[{icd}.key] / attrs.get({icd}.key, default) over the definitions, in order"
-    res.inst(fi.fq, short(st), "ok" if ok else "fail", detail=why)
+    fi = target.target
+    universe = ["element_symbol", "atomic_number", "partition", "x_coord", "y_coord", "z_coord", "chg", "mass", "rad"]
+    J = HeapInterp(repo, sink_keys=())
+    rec = Obj("rec")
+    for k in universe:
+        rec.fields[k] = Obj("scalar", frozenset({f"@field:{k}"}))
+    atoms = Obj("map")
+    atoms.elem = rec
+    darg = target.node.args[1]
+    if isinstance(darg, ast.Name):
+        darg = single_def(gfm.node, darg.id) or darg
+    try:
+        defs = J.ev(darg, {}, E, gfm)
+        J.call(fi, [atoms, defs])
+    except AnalysisError as ex:
+        raise AnalysisError(f"R-KEYS: cannot follow the invariant-code helper {fi.qualname}: {ex}")
+    got = rec.fields.get(inv_key)
+    if got is None:
+        raise AnalysisError(f"invariant-code helper {fi.qualname}: no value stored under {inv_key!r} in the atom records")
+    labels = {x[len("@field:"):] for x in taint(got) if isinstance(x, str) and x.startswith("@field:")}
+    want = set(IDENTITY_KEYS)
+    if labels >= set(universe):
+        raise AnalysisError(f"R-KEYS: cannot resolve which attributes {fi.qualname} reads for the invariant code (the definitions are not followed)")
+    ok = labels == want
+    res.inst(fi.fq, f"invariant code is computed from the attributes {sorted(labels)}", "ok" if ok else "fail",
+             detail="followed from the call in graph_from_molecule with one labelled value per attribute")
     if not ok:
-        res.fail(Finding("R-KEYS", fi.module.rel, fi.qualname, norm(st), f"invariant code is not built from exactly the defined keys ({why})", line=st.lineno))
+        extra, missing = sorted(labels - want), sorted(want - labels)
+        why = (f"extra {extra}" if extra else "") + (" " if extra and missing else "") + (f"missing {missing}" if missing else "")
+        res.fail(Finding("R-KEYS", fi.module.rel, fi.qualname, f"invariant code <- {sorted(labels)}",
+                         f"invariant code is not built from exactly the defined keys ({why})", line=fi.node.lineno))
 
 
 # --------------------------------------------------------------------------- R-ELEMTABLE
